@@ -155,6 +155,109 @@ class C07World(SrcWorld):
         return "S" not in obs and obs.get("pre_step") == obs.get("post_step")
 
 
+from cfdppy.filestore import NativeFilestore  # noqa: E402
+
+
+class HugeFs(NativeFilestore):
+    """reports a 2^32+5 byte file whose bytes are a function of the offset"""
+
+    SIZE = 2 ** 32 + 5
+
+    def file_size(self, file):
+        return self.SIZE
+
+    def read_data(self, file, offset, read_len=None):
+        off = offset or 0
+        n = min(read_len if read_len is not None else 0, max(0, self.SIZE - off))
+        return bytes(((off + i) * 13 + 7) % 251 + 1 for i in range(n))
+
+
+def _make_huge_fs():
+    return HugeFs()
+
+
+class C07Large(SrcWorld):
+    """Prefix run of a large-file (64 bit size) transfer: Metadata and the first File Data PDUs only."""
+
+    prop = P
+    name = "SRC-C07-LARGE"
+    autoput = False
+
+    def build(self):
+        import os
+
+        c = self.c
+        from env.src import SrcState
+        st = SrcState()
+        os.makedirs("in", exist_ok=True)
+        with open(core.SRC_PATH, "wb") as f:
+            f.write(b"x")
+        st.S = core.make_source(c, vfs=_make_huge_fs())
+        st.m = {"n": 0, "covered": 0}
+        ok = st.S.h.put_request(self.put_req("valid"))
+        assert ok
+        st.nput = 1
+        return st
+
+    def enabled(self, st):
+        return [("tick",)] if st.m["n"] < self.cfg.get("calls", 4) else []
+
+    def update_model(self, st, ev, out):
+        m = dict(st.m)
+        out["pre_covered"] = m["covered"]
+        out["n"] = m["n"]
+        m["n"] += 1
+        for d in self.emitted(out, "FD"):
+            m["covered"] += len(d["data"]) // 2
+        st.m = m
+
+    def quiet(self, obs):
+        return False
+
+    def check(self, st, ev, out):
+        v = []
+        c = self.c
+        size = 2 ** 32 + 5
+        w = max(c["idw_s"], c["idw_d"])
+        seg = c["mpl"] - header_len(c) - 8 - (2 if c["crc_flag"] else 0)
+        if c["seg"] is not None:
+            seg = min(seg, c["seg"])
+
+        def bad(clause, msg, **d):
+            v.append(Violation(P, clause, f"large file, call {out['n']}: {msg}", large=True, **d))
+
+        e = self.exc(out)
+        if e:
+            bad("C07.exception", f"{e['exc']} from {e['site']}: {e['msg']}", exc=e["exc"], site=e["site"])
+        for r in out.get("S", {}).get("reparse", []):
+            bad("C07.serialisation", f"{r['T']} PDU does not survive pack()/PduFactory.from_raw: {r}", T=r["T"])
+        covered = out["pre_covered"]
+        emitted = self.emitted(out)
+        if out["n"] == 0 and [d["T"] for d in emitted] != ["MD"]:
+            bad("C07.order", f"first call emitted {[d['T'] for d in emitted]}, expected the Metadata PDU")
+        if out["n"] > 0 and [d["T"] for d in emitted] != ["FD"]:
+            bad("C07.flow_control", f"call emitted {[d['T'] for d in emitted]}, expected exactly one File Data PDU")
+        for d in emitted:
+            if d["large"] != "LARGE":
+                bad("C07.header", f"{d['T']} PDU of a {size} byte file does not carry the large file flag", field="large", T=d["T"])
+            if d["src"] != [1, w] or d["dst"] != [2, w] or d["seq"] != [0, c["seqw"]]:
+                bad("C07.header", f"{d['T']} PDU ids {d['src']} {d['dst']} {d['seq']}", field="ids", T=d["T"])
+            if d["packed"] != d["plen"]:
+                bad("C07.packet_len", f"{d['T']} PDU packet_len {d['plen']} but pack() yields {d['packed']} bytes", T=d["T"])
+            if d["T"] == "MD" and d["size"] != size:
+                bad("C07.metadata", f"Metadata file size {d['size']}, expected {size}", field="size")
+            if d["T"] == "FD":
+                ln = len(d["data"]) // 2
+                if d["off"] != covered:
+                    bad("C07.tiling", f"File Data at offset {d['off']} but {covered} bytes were sent so far", kind="offset")
+                if ln == 0 or ln > seg:
+                    bad("C07.segment_len", f"File Data PDU carries {ln} bytes, effective segment length with a 64 bit offset is {seg}", kind="len")
+                if d["plen"] > c["mpl"]:
+                    bad("C07.max_packet_len", f"File Data PDU of {d['plen']} bytes exceeds max_packet_len {c['mpl']}", T="FD")
+                covered += ln
+        return v
+
+
 def configs(tier):
     out = []
 
@@ -204,11 +307,16 @@ def run(tier: str) -> int:
     run_ = Run(P, tier, assumptions=[
         "effective segment length re-derived in the harness: min(configured, max_packet_len - header - 4 byte offset - 2 byte CRC)",
         "EOF condition code is excluded from the parse-back comparison (spacepackets 0.26.1 EofPdu.unpack bug, outside this repository)",
-        "large-file (64 bit size) transfers are not exercised",
+        "large-file (64 bit size) transfers are exercised as prefix runs only (Metadata and the first three File Data PDUs of a 2^32+5 byte file served by a filestore wrapper)",
     ])
     cfgs = configs(tier)
     worlds = [C07World(**kw) for kw in cfgs]
     run_.bounds = {"configurations": len(worlds), "segment_lengths": "1,2,3,5 and derived 6..8 (max_packet_len from the smallest that fits the EOF PDU)", "sizes": "0..3L+1 (every value)"}
     results = explore_many(worlds, procs=NPROC, cycle_clause=(P, "C07.cycle"), validate_stride=3, validate_terminals=2, n_samples=1)
     run_.add_all(results)
+    # large-file prefix runs (not continued to the EOF: 2^32 bytes would have to be sent)
+    large = [C07Large(mode=mode, closure=False, crc_flag=crc, seg=seg, mpl=mpl, idw_s=ws, idw_d=ws, seqw=sw, size=1, calls=4)
+             for mode, crc, (seg, mpl), (ws, sw) in itertools.product(("unack", "ack"), (False, True), ((None, 40), (5, 64), (None, 64)), ((2, 2), (1, 1), (8, 4)))]
+    run_.add_all(explore_many(large, procs=NPROC, check_cycles=False, validate_stride=2, validate_terminals=1, n_samples=1))
+    run_.bounds["large_file_prefix_runs"] = len(large)
     return run_.finish(rule="one complete run graph per configuration (tick until done; ACK(EOF) / Finished offered when awaited); per-PDU oracle re-derived from the configuration")
